@@ -518,10 +518,10 @@ def ownership_handoff(ctx, P, scope, rule="OWNERSHIP-HANDOFF", tus=None):
     return n
 
 
-NAN_CODES = ("TSK_ERR_SEEK_OUT_OF_BOUNDS", "TSK_ERR_BAD_WINDOWS", "TSK_ERR_POSITION_OUT_OF_BOUNDS")
+NAN_CODES = ("TSK_ERR_SEEK_OUT_OF_BOUNDS", "TSK_ERR_BAD_WINDOWS", "TSK_ERR_POSITION_OUT_OF_BOUNDS", "TSK_ERR_BAD_PARAM_VALUE")
 
 
-def guard_nan(ctx, P, rule="GUARD-NAN", tus=("trees",)):
+def guard_nan(ctx, P, rule="GUARD-NAN", tus=("trees",), funcs=None):
     """Range guards over caller-supplied genome coordinates (double) must be true for NaN."""
     from sa.guards import find_guards
     ctx.rule(rule, "a guard that protects a tree sweep from a caller-supplied genome coordinate (seek position, window breakpoints, "
@@ -560,7 +560,7 @@ def guard_nan(ctx, P, rule="GUARD-NAN", tus=("trees",)):
     for key in tus:
         tu = P.tus[key]
         for fn in tu.funcs.values():
-            if fn.body is None:
+            if fn.body is None or (funcs is not None and fn.name not in funcs):
                 continue
             gs = [g for g in find_guards(P, fn) if set(g.codes) & set(NAN_CODES)]
             if not gs:
@@ -587,7 +587,7 @@ def guard_nan(ctx, P, rule="GUARD-NAN", tus=("trees",)):
                 ctx.ob(rule, "%s|%s" % (fn.name, p_.name), ok, tu.loc(mine[0].ifn),
                        "a NaN in `%s` is rejected" % p_.name if ok else
                        "no guard on `%s` is true for NaN (%s): a NaN coordinate passes validation" % (p_.name, "; ".join(estr(g.ifn.kids[0])[:50] for g in mine[:3])))
-    ctx.floor(rule, 3)
+    ctx.floor(rule, 3 if funcs is None else len(funcs))
     return n
 
 
